@@ -27,10 +27,11 @@ def finish_verdict(res, broken, corr_mismatch, suite_name):
                       {'broken': 'correspondence suite ' + suite_name, 'first_difference': m, 'count': len(corr_mismatch)},
                       key=None, no_input=True)
         return
-    for what in ('harness', 'translator', 'theorem', 'model'):
+    for what in ('harness', 'translator', 'srctranslator', 'theorem', 'model'):
         if what in broken:
             name = {'harness': 'harness build against /repo (correspondence cannot run)',
                     'translator': 'data translator (dump -> coq/gen)',
+                    'srctranslator': 'source translator tools/rs2coq refused /repo/src (a declaration, attribute, import or impl block it relies on changed): the source tie of coq/props/%s.v is not established for the current code' % res.prop,
                     'theorem': 'theorem file coq/props/%s.v (or a lemma it depends on) no longer checks' % res.prop,
                     'model': 'extraction of the model'}[what]
             res.violation(name, {'broken': name, 'coqc_or_build_output': broken[what][-3000:]}, key=None, no_input=True)
